@@ -584,3 +584,34 @@ func (c *Ctx) valueOfTerm(fn *ssa.Function, t string) ssa.Value {
 	})
 	return out
 }
+
+// fieldSource: the SSA value (of fn) that ends up in field f of the struct value v: the value
+// stored into a composite literal, or — when v is made by a constructor helper that stores one
+// of its parameters there — the argument passed for that parameter. nil when unknown.
+func (c *Ctx) fieldSource(fn *ssa.Function, v ssa.Value, f string, use ssa.Instruction) ssa.Value {
+	v = unwrapIface(v)
+	switch x := v.(type) {
+	case *ssa.Alloc:
+		return fieldValue(x, f, use)
+	case *ssa.UnOp:
+		if a, ok := x.X.(*ssa.Alloc); ok {
+			return fieldValue(a, f, x)
+		}
+	case *ssa.Call:
+		g := callee(x)
+		if g == nil || !c.W.InRepo(g) || g == fn || len(g.Blocks) == 0 {
+			return nil
+		}
+		rets := returnsOf(g)
+		if len(rets) != 1 || len(rets[0].Results) != 1 {
+			return nil
+		}
+		inner := c.fieldSource(g, rets[0].Results[0], f, rets[0])
+		if p, ok := inner.(*ssa.Parameter); ok {
+			if k := paramIndex(g, p); k >= 0 && k < len(x.Call.Args) {
+				return x.Call.Args[k]
+			}
+		}
+	}
+	return nil
+}
